@@ -267,7 +267,9 @@ def site_key(rec, xsl=None, mode="single"):
         if dtor != "-":
             # inside a destructor: the innermost destructor frame names the site
             return "terminate@|" + dtor.split("<")[-1]
-        return "terminate@" + "<".join(norm_frames(sig, 2))
+        nf = norm_frames(sig, 2)
+        # (the inlined ~GetAndReleaseCachedString shows as XalanDOMStringCache::release called from anywhere)
+        return "terminate@" + (nf[0] if nf[0] == "XalanDOMStringCache::release" else "<".join(nf))
     if oc == "swallowed":
         return "swallowed:%s@%s" % (rec.get("out"), "document()" if (xsl and uses_document(xsl)) else "<".join(norm_frames(sig, 2)))
     if oc.split(":")[0] in CRASHES:
